@@ -22,7 +22,8 @@ NCPU = os.cpu_count() or 4
 
 
 SESSION_LOG = []        # client frames of every TCP connection of every execution of the running check (harness/session.py)
-GRAMMAR_OWNERS = ('C01', 'C09', 'C10', 'C11', 'C12')    # properties whose statement covers the client's frame grammar
+GRAMMAR_OWNERS = ('C01', 'C09', 'C10', 'C11', 'C12', 'C16')    # properties whose statement covers the client's frame grammar
+#                 (C16: "the same object can connect again" - a connection that opens with an undecodable handshake has not)
 
 
 class MachineryError(Exception):
